@@ -503,6 +503,8 @@ pub fn dfs(ctx: &mut Ctx, w: usize, n: usize, with_drop: bool, max_runs: usize) 
 }
 
 pub fn run_c05(ctx: &mut Ctx) {
+    // the workers busy-wait on `send_next`: on an oversubscribed machine a run can be slow without being stuck
+    ctx.case_timeout = Duration::from_secs(240);
     // controlled schedules: seeded random walks
     let n_runs = ctx.budget(250, 6000);
     for i in 0..n_runs {
@@ -537,14 +539,15 @@ pub fn run_c05(ctx: &mut Ctx) {
     // uncontrolled stress
     let n_stress = ctx.budget(40, 1500);
     for _ in 0..n_stress {
-        let w = ctx.rng.random_range(0..=8u64);
-        let n = ctx.rng.random_range(0..=300u64);
+        let w = ctx.rng.random_range(0..=6u64);
+        let n = ctx.rng.random_range(0..=200u64);
         let seed = ctx.rng.random_range(0..1000u64);
         ctx.case("pipestress", &[w, n, seed]);
     }
 }
 
 pub fn run_c09(ctx: &mut Ctx) {
+    ctx.case_timeout = Duration::from_secs(240);
     let n_runs = ctx.budget(200, 5000);
     for i in 0..n_runs {
         let w = ctx.rng.random_range(1..=4);
